@@ -25,7 +25,8 @@ Definition judge (orig rewritten : parse_obs) : Z :=
 (* ------------------------------------------------------------------ known findings *)
 (** facts about the place of a rewrite, computed by the check from the REAL lexer's token stream *)
 Record facts := {
-  f_encl : Z;              (* enclosure depth at the point *)
+  f_encl : Z;              (* enclosure level at the point, as the lexer counts it (the closing brace of a string
+                              interpolation decrements it: a further finding, see known/C10.json) *)
   f_indent : Z;            (* indentation of the open block there (sum of the lexer's indentation stack) *)
   f_lead : Z;              (* if the line that results consists of blanks and at most a comment: its number of
                               leading blanks, otherwise -1 *)
